@@ -2,6 +2,7 @@
 from props import common
 
 FUNCS = ["pce500.scheduler:TimerScheduler.advance (loop rule, both while loops)", "TimerScheduler.__post_init__/reset/next_mti/next_sti setters",
+         "pce500.emulator:PCE500Emulator.save_snapshot/load_snapshot (timer, cycle-counter and in-interrupt fields)",
          "pce500.emulator:PCE500Emulator._tick_timers", "PCE500Emulator._set_isr_bits", "PCE500Emulator._simulate_wait (bounded)"]
 
 
@@ -13,6 +14,7 @@ def run(prop, tier):
     reps += common.run_units("contracts.timers:unit_cadence", [dict(kind="cadence-lemma")], budget=120)
     reps += common.run_units("contracts.timers:unit_reset_setters", [dict(kind="reset-setters")], budget=120)
     reps += common.run_units("contracts.timers:unit_tick", [dict(kind="tick->ISR")], budget=300)
+    reps += common.run_units("contracts.timers:unit_snapshot", [dict(kind="snapshot-restore", in_interrupt=False), dict(kind="snapshot-restore", in_interrupt=True)], budget=300)
     ns = (1, 2, 3, 4) if tier == "quick" else (1, 2, 3, 4, 5, 6)
     wait_units = [dict(n=n, kind="wait") for n in ns] + [dict(n=2, kind="wait", in_interrupt=True), dict(n=2, kind="wait", enabled=False)]
     bounded = common.run_units("contracts.timers:unit_wait", wait_units, budget=900)
@@ -36,11 +38,11 @@ def run(prop, tier):
         "loop invariant of advance(): period > 0, target = target0 + k*period (ghost k >= 0), target - period <= cycle; variant cycle - target + 1",
         "_tick_timers/_simulate_wait run on a context stub (SimpleNamespace with the real methods bound): memory = symbolic byte array, keyboard.scan_tick() returns no events, tracing off",
         "_tick_timers contract stated for the tick-every-cycle regime (targets strictly after the previous cycle), which is how step()/_simulate_wait call it",
-        "snapshot save/restore of timer targets (load_snapshot) is not under contract",
+        "snapshot restore point: the real save_snapshot/load_snapshot pair on two real PCE500Emulator objects with symbolic cycle counter, periods, targets and enable flag; json (ints and bools survive dumps/loads) and zipfile (an archive returns the members written) are contract stubs; every other persisted field is the concrete power-on state",
     ]
     v.samples = [dict(obligation="mti:fires-iff-due", statement="forall mti_period,next_mti,cycle in Z: MTI in advance(cycle) <=> enabled and mti_period > 0 and cycle >= next_mti"),
                  dict(obligation="loop0:inv-preserved", statement="Inv and cycle >= next_mti => Inv[next_mti += period, k+1]"),
                  dict(obligation="cadence:exactly-one-period", statement="contract(advance) and target > cycle-1 and cycle >= target => target' = target + period")]
     rule = ("contract of TimerScheduler.advance discharged with the loop rule over unbounded integers (13 paths); cadence as a z3 lemma over that contract; "
-            "reset/setters; _tick_timers ISR mapping on a context stub; bounded per-cycle WAIT log")
+            "reset/setters; snapshot save/load round trip of the scheduler state; _tick_timers ISR mapping on a context stub; bounded per-cycle WAIT log")
     return v.finish(f"./check {prop} --tier {tier}", rule, tier)
